@@ -1,4 +1,4 @@
-import HecsModel.Lemmas.SpecClear
+import HecsModel.Lemmas.SpecBatchAt
 /-
   C01 — refinement to the abstract specification.
 
@@ -12,30 +12,46 @@ import HecsModel.Lemmas.SpecClear
   So on any history on which implementation and model agree (oracle (O)), oracle (S) cannot fire either,
   and every per-operation theorem of `C01Effects` is a corollary of one simulation.
 
-  Full statement: `∀ op, op.WF → op.gensOk → ...` for all 15 operations.  Proved: 14 of them
-  (`Op.covered`), hence the suffix `_partial`.  Missing: `spawn_column_batch_at` (needs the list version
-  of the eviction argument of `accepts_spawnAt`; its per-handle facts are
-  `C01.spawnColumnBatchAt_effect`).  `clear` is covered: the values it drops are a permutation of the
+  Statement: `∀ op, op.WF → op.gensOk → ...` for all 15 operations, proved in full
+  (`spec_accepts_step`, `spec_accepts_run`).  `clear`: the values it drops are a permutation of the
   values the abstract state lists (`Lemmas/SpecClear.lean`, from one-row-per-live-handle).
+  `spawn_column_batch_at`: refused calls (unequal lengths, repeated id) change nothing; accepted calls
+  evict exactly the occupants of the named ids (`Lemmas/SpecBatchAt.lean`).
   `Op.gensOk`: handles named by `spawn_at` have a generation ≥ 1 (they are `NonZeroU32` in hecs).
 
   Property theorems only; helper lemmas live in `Lemmas/SpecRefine.lean`.
 -/
 namespace Hecs
 
-/-- the operations the refinement theorem covers so far -/
-def Op.covered : Op → Bool
-  | .spawnColumnBatchAt _ _ _ => false
-  | _ => true
-
 namespace Spec
+
+/-- `spawn_column_batch_at`, the refused half:
+a call whose handle list and column batch differ in length, or that names an id twice, is answered by a
+panic in the model, that answer is what the specification demands, and nothing changes on either side —
+the states stay related.  -/
+theorem spec_accepts_refused_batch_at (s : SpecW) (w : World) (h : Rel s w) (hs : List Entity) (ts : List Nat)
+    (rows : List (List Comp)) (hbad : hs.length ≠ rows.length ∨ ¬ (hs.map (·.id)).Nodup) :
+    (Hecs.step w (.spawnColumnBatchAt hs ts rows)).2.res = .panic ∧
+    apply s (.spawnColumnBatchAt hs ts rows) (Hecs.step w (.spawnColumnBatchAt hs ts rows)).2.res
+      (Hecs.step w (.spawnColumnBatchAt hs ts rows)).2.dropped = .ok s ∧
+    Rel s (Hecs.step w (.spawnColumnBatchAt hs ts rows)).1 := by
+  have h1 : Hecs.step w (.spawnColumnBatchAt hs ts rows) = (w, { res := .panic, dropped := rows.flatten }) := by
+    simp only [Hecs.step, World.spawnColumnBatchAt, if_pos hbad]
+  rw [h1]
+  refine ⟨rfl, ?_, h⟩
+  simp only [apply, if_pos hbad]
+  rfl
+
+/-- the hypothesis is satisfiable: a repeated id -/
+example : (2 : Nat) ≠ 2 ∨ ¬ (([⟨3,1⟩, ⟨3,2⟩] : List Entity).map (·.id)).Nodup := by decide
 
 /-- One step of refinement: whatever the model does is an allowed transition of the abstract map
 specification (the result it returns and the values it drops pass every check of `Spec.apply`), and
 the successor states are related again. -/
-theorem spec_accepts_step_partial (s : SpecW) (w : World) (h : Rel s w) (hw : w.Inv) (op : Op)
-    (hop : op.WF) (hgo : op.gensOk) (hc : op.covered = true) :
+theorem spec_accepts_step (s : SpecW) (w : World) (h : Rel s w) (hw : w.Inv) (op : Op)
+    (hop : op.WF) (hgo : op.gensOk) :
     ∃ s', apply s op (Hecs.step w op).2.res (Hecs.step w op).2.dropped = .ok s' ∧ Rel s' (Hecs.step w op).1 := by
+  have hrel := h
   obtain ⟨hs, hh⟩ := h
   cases op with
   | spawn b =>
@@ -69,7 +85,12 @@ theorem spec_accepts_step_partial (s : SpecW) (w : World) (h : Rel s w) (hw : w.
     obtain ⟨s', a, b', c⟩ := accepts_spawnBatch s w hs hh hw ts rows hop; exact ⟨s', a, b', c⟩
   | spawnColumnBatch ts rows =>
     obtain ⟨s', a, b', c⟩ := accepts_spawnColumnBatch s w hs hh hw ts rows hop; exact ⟨s', a, b', c⟩
-  | spawnColumnBatchAt _ _ _ => cases hc
+  | spawnColumnBatchAt es ts rows =>
+    by_cases hbad : es.length ≠ rows.length ∨ ¬ (es.map (·.id)).Nodup
+    · obtain ⟨_, a, b'⟩ := spec_accepts_refused_batch_at s w hrel es ts rows hbad; exact ⟨s, a, b'⟩
+    · simp only [not_or, Decidable.not_not] at hbad
+      obtain ⟨s', a, b', c⟩ := accepts_spawnColumnBatchAt s w hs hh hw es ts rows hop hgo hbad.1 hbad.2
+      exact ⟨s', a, b', c⟩
   | clear =>
     obtain ⟨s', a, b'⟩ := accepts_clear s w hs hw; exact ⟨s', a, b'⟩
   | reserveEntities n =>
@@ -84,57 +105,38 @@ def specRun : SpecW → World → List Op → Except String SpecW
     | .error m => .error m
 
 /-- Whole histories: started from `World::new()`, the abstract specification accepts everything the
-model does, for histories of any length over the covered operations. -/
-theorem spec_accepts_run_partial (ops : List Op) (hwf : ∀ op, op ∈ ops → op.WF)
-    (hgo : ∀ op, op ∈ ops → op.gensOk) (hc : ∀ op, op ∈ ops → op.covered = true) :
+model does, for histories of any length over all fifteen operations. -/
+theorem spec_accepts_run (ops : List Op) (hwf : ∀ op, op ∈ ops → op.WF)
+    (hgo : ∀ op, op ∈ ops → op.gensOk) :
     ∃ s', specRun {} World.new ops = .ok s' ∧ Rel s' (run ops) := by
   have gen : ∀ (ops : List Op) (s : SpecW) (w : World), Rel s w → w.Inv → (∀ op, op ∈ ops → op.WF) →
-      (∀ op, op ∈ ops → op.gensOk) → (∀ op, op ∈ ops → op.covered = true) →
+      (∀ op, op ∈ ops → op.gensOk) →
       ∃ s', specRun s w ops = .ok s' ∧ Rel s' (ops.foldl (fun w op => (Hecs.step w op).1) w) := by
     intro ops
     induction ops with
-    | nil => intro s w h _ _ _ _; exact ⟨s, rfl, h⟩
+    | nil => intro s w h _ _ _; exact ⟨s, rfl, h⟩
     | cons op ops ih =>
-      intro s w h hw hwf hgo hc
-      obtain ⟨s1, a, r⟩ := spec_accepts_step_partial s w h hw op (hwf op (by simp)) (hgo op (by simp)) (hc op (by simp))
+      intro s w h hw hwf hgo
+      obtain ⟨s1, a, r⟩ := spec_accepts_step s w h hw op (hwf op (by simp)) (hgo op (by simp))
       obtain ⟨s2, a2, r2⟩ := ih s1 (Hecs.step w op).1 r (World.inv_step w op (hwf op (by simp)) hw)
-        (fun o ho => hwf o (by simp [ho])) (fun o ho => hgo o (by simp [ho])) (fun o ho => hc o (by simp [ho]))
+        (fun o ho => hwf o (by simp [ho])) (fun o ho => hgo o (by simp [ho]))
       exact ⟨s2, by simp only [specRun, a]; exact a2, r2⟩
-  exact gen ops {} World.new rel_new World.inv_new hwf hgo hc
+  exact gen ops {} World.new rel_new World.inv_new hwf hgo
 
-/-- the hypotheses are satisfiable and the conclusion is not vacuous: a history through every covered kind
+/-- the hypotheses are satisfiable and the conclusion is not vacuous: a history through every kind
 of operation (free-list reuse, reservations, a batch, an id-targeted spawn that evicts a live entity) is
-well formed, covered, and accepted by the specification run -/
+well formed and accepted by the specification run -/
 example :
     let ops : List Op :=
       [.spawn [(0,1)], .spawn [(1,2),(0,3)], .insert ⟨0,1⟩ [(1,4)], .reserveEntities 2, .despawn ⟨1,1⟩,
        .spawnBatch [0] [[(0,5)],[(0,6)]], .exchange ⟨0,1⟩ [0] [(2,7)], .remove ⟨0,1⟩ [2], .reserveEntity,
        .spawnAt ⟨2,5⟩ [(0,8)], .spawnColumnBatch [0,1] [[(0,9),(1,10)]], .takeDrop ⟨0,1⟩, .reserve [3], .flush,
-       .reserveEntity, .clear, .spawn [(0,11)], .reserveEntity, .clear]
-    (ops.all (fun op => decide op.WF && op.covered)) = true ∧
+       .reserveEntity, .clear, .spawn [(0,11)], .spawn [(0,12),(1,13)], .reserveEntity,
+       .spawnColumnBatchAt [⟨1,4⟩, ⟨0,9⟩, ⟨7,2⟩] [0,1] [[(0,20),(1,21)],[(0,22),(1,23)],[(0,24),(1,25)]],
+       .spawnColumnBatchAt [⟨1,4⟩, ⟨1,5⟩] [0] [[(0,1)],[(0,2)]], .clear]
+    (ops.all (fun op => decide op.WF)) = true ∧
     (match specRun {} World.new ops with | .ok _ => true | .error _ => false) = true := by
   decide +kernel
-
-/-- `spawn_column_batch_at`, the refused half (the only part of the fifteenth operation proved so far):
-a call whose handle list and column batch differ in length, or that names an id twice, is answered by a
-panic in the model, that answer is what the specification demands, and nothing changes on either side —
-the states stay related.  (The accepted half — eviction of every entity in the way, then one batch
-insertion — is exercised against `Spec.apply` on every trace line only.) -/
-theorem spec_accepts_refused_batch_at (s : SpecW) (w : World) (h : Rel s w) (hs : List Entity) (ts : List Nat)
-    (rows : List (List Comp)) (hbad : hs.length ≠ rows.length ∨ ¬ (hs.map (·.id)).Nodup) :
-    (Hecs.step w (.spawnColumnBatchAt hs ts rows)).2.res = .panic ∧
-    apply s (.spawnColumnBatchAt hs ts rows) (Hecs.step w (.spawnColumnBatchAt hs ts rows)).2.res
-      (Hecs.step w (.spawnColumnBatchAt hs ts rows)).2.dropped = .ok s ∧
-    Rel s (Hecs.step w (.spawnColumnBatchAt hs ts rows)).1 := by
-  have h1 : Hecs.step w (.spawnColumnBatchAt hs ts rows) = (w, { res := .panic, dropped := rows.flatten }) := by
-    simp only [Hecs.step, World.spawnColumnBatchAt, if_pos hbad]
-  rw [h1]
-  refine ⟨rfl, ?_, h⟩
-  simp only [apply, if_pos hbad]
-  rfl
-
-/-- the hypothesis is satisfiable: a repeated id -/
-example : (2 : Nat) ≠ 2 ∨ ¬ (([⟨3,1⟩, ⟨3,2⟩] : List Entity).map (·.id)).Nodup := by decide
 
 /-- the oracle's comparison of dropped values is order-insensitive: lists that are permutations of each
 other are accepted as the same multiset (used wherever the order of drops is an implementation detail) -/
